@@ -290,6 +290,70 @@ def comment_list(tree):
     return out
 
 
+PROSE_LINE_DOCS = [
+    'a $x_#f(1, 2)$ b\n', 'a $#f(1, 2)/y$ b\n', 'a $sqrt(#f(1, 2))$ b\n', 'a #f(1, 2) b\n', 'a #f(1, 2)[c] b\n', 'a #(1, 2) b\n', 'a #x.y(1, 2).z(3) b\n', '- a #f(1, 2) b\n', '*a #f(1, 2)* b\n',
+    'a #[b #f(1, 2)] c\n', 'a $f(1, 2)$ b\n', 'a #{ f(1, 2) } b\n', 'a #if x { f(1, 2) } b\n', 'a #(x + y + z) b\n', 'a #f(k: 1, j: 2) b\n', 'a #(k: 1, j: 2) b\n', 'a #f(x => (1, 2)) b\n',
+    'a $mat(1, 2; 3, 4)$ b\n', 'a $x^#f(1, 2)_#g(3, 4)$ b\n', 'a $root(#f(1, 2), x)$ b\n', '= H #f(1, 2) b\n', '/ T: a #f(1, 2) b\n', '+ a $x_#(1, 2)$\n', 'a `r` #f(1, 2)\n', 'a #f(1, 2) *b*\n',
+    'a #import "m": (x, y) b\n', 'a #f(1, 2); b\n', 'a #text(red)[b #f(1, 2)] c\n', 'a #f(1, g(2, 3)) b #h(4, 5) c\n', 'alpha #f(aaaa, bbbb) beta\ngamma #g(cccc, dddd)\n',
+]
+
+
+def prose_lines_broken(tree, tree2):
+    """C08 on parsed trees: the children of a markup node that stood on one line holding prose (a Text, strong, emph or raw element) still stand on one
+    line, and none of them gained a line break inside (an element that already spanned lines in the source is not judged).  Returns a description of
+    the first line that was broken, or None."""
+    from .conserve import source_of
+
+    def nl(s_):
+        return sum(1 for ch in s_ if ord(ch) in T.TYPST_NEWLINES)
+
+    def lines_of(x):
+        groups = [[]]
+        for c in x:
+            if c[0] == 'Parbreak' or (c[0] == 'Space' and nl(c[1])):
+                groups.append([])
+            elif c[0] != 'Space':
+                groups[-1].append(c)
+        return [g for g in groups if g]
+
+    def walk(a, b):
+        ka, xa = a
+        kb, xb = b
+        if not isinstance(xa, list) or not isinstance(xb, list):
+            return None
+        if ka == 'Markup' and kb == 'Markup':
+            la, lb = lines_of(xa), lines_of(xb)
+            flat_a = [c for g in la for c in g]
+            flat_b = [c for g in lb for c in g]
+            if len(flat_a) == len(flat_b):
+                pos = 0
+                for g in la:
+                    prose = any(c[0] in ('Text', 'Strong', 'Emph', 'Raw') for c in g)
+                    if prose:
+                        # the same children must form one line of the output
+                        idx = 0
+                        owner = []
+                        for gi, gb in enumerate(lb):
+                            for _ in gb:
+                                owner.append(gi)
+                        if len({owner[pos + j] for j in range(len(g))}) != 1:
+                            return 'the line %r is spread over several lines' % ''.join(source_of(c) for c in g)[:60]
+                        for j, c in enumerate(g):
+                            sa, sb = source_of(c), source_of(flat_b[pos + j])
+                            if nl(sa) == 0 and nl(sb) > 0:
+                                return 'on the line %r the element %r now spans lines: %r' % (''.join(source_of(c2) for c2 in g)[:50], sa[:30], sb[:40])
+                    pos += len(g)
+        ca = [c for c in xa if isinstance(c[1], list)]
+        cb = [c for c in xb if isinstance(c[1], list)]
+        if len(ca) == len(cb):
+            for p, q in zip(ca, cb):
+                r = walk(p, q)
+                if r:
+                    return r
+        return None
+    return walk(tree, tree2)
+
+
 COMMENT_DOCS = [
     '#grid([x] // note\n, [y])\n', '#table(columns: 2, [a] // c\n, [b])\n', '#table(columns: 2, [a], // c\n [b])\n', '#table(columns: 2,\n  // c\n  [a], [b])\n', '#grid([x] /* c */, [y])\n',
     '#table(columns: 2, [a] // c\n\n, [b])\n', '#grid(\n  [x], // c\n  // d\n  [y],\n)\n', '#table(columns: 2, ..cells, // c\n [a])\n', '#table(columns: 2, [a], [b]) // c\n', '#grid(// c\n)\n',
@@ -300,6 +364,21 @@ COMMENT_DOCS = [
     '#context /* c */ x\n', '#return /* c */ x\n' if False else '#{ return /* c */ x }\n', '#include /* c */ "a"\n', '= H // c\n', '- a // c\n  b\n', '/ T /* c */ : d\n', 'a /* c */ b // d\ne\n', '*a /* c */ b*\n',
     '$ a /* c */ + b // d\n $\n', '$ f(/* c */ a; b /* d */) $\n', '$ x_/* c */ 1 $\n' if False else '$ x_1 /* c */ $\n', '$ (a /* c */) $\n', '#[a /* c */][// d\n]\n',
 ]
+
+
+COMMENT_DOCS += ['#import "m": (a // c\nas b)\n', '#import "m": (a as // c\n b)\n', '#import "m": (a. // c\nb)\n', '#import "m": (a /* c */ as b, d)\n', '#import "m": a /* c */ as b\n',
+                 '#f(a: // c\n 1, b)\n', '#(a. // c\nb, c)\n', '#f(x => // c\n x)\n', '#(a, (b // c\n, d))\n', '#f(g(a // c\n))\n', '#f[a // c\n]\n', '#let x = (a // c\n)\n']
+
+
+def in_contexts(docs):
+    """the same constructs on a line that also holds text, in a list item, in a content block on a text line and embedded in an equation"""
+    out = []
+    for d in docs:
+        out.append(d)
+        if d.startswith('#') and not d.startswith('#['):
+            body = d.rstrip('\n')
+            out += ['See ' + d, '- x ' + d, 'x #[y ' + body + ' z] w\n', '$ ' + body + ' $\n', 'x $ ' + body + ' $ y\n']
+    return out
 
 
 def raw_lines(S, text):
@@ -424,12 +503,18 @@ def explore(S, docs, tabs=(2,), prop='C03', widths=(0, 40, 1 << 30)):
                     tree2 = parse(t1)
                     if tree2 is None:
                         S.absorb(m)
-                        ctx.must_hold(False, '%s:output-does-not-parse' % ('C04' if prop in ('C01', 'C04', 'C02', 'C09', 'C06') else prop), lambda mdl: dict(describe(mdl), first=t1))
+                        ctx.must_hold(False, '%s:output-does-not-parse' % ('C04' if prop in ('C01', 'C04', 'C02', 'C09', 'C06', 'C08') else prop), lambda mdl: dict(describe(mdl), first=t1))
                         return
                     if prop == 'C04':
                         S.absorb(m)
                         ctx.must_hold(True, 'C04:output-does-not-parse')
                         ctx.witness('output parsed')
+                        return
+                    if prop == 'C08':
+                        S.absorb(m)
+                        broken = prose_lines_broken(tree, tree2)
+                        ctx.must_hold(broken is None, 'C08:line-that-holds-prose-broken', lambda mdl: dict(describe(mdl), first=t1, difference=broken))
+                        ctx.witness('prose lines compared')
                         return
                     if prop == 'C06':
                         S.absorb(m)
@@ -495,9 +580,9 @@ def confirm(S, info, prop='C03'):
     src = info['source']
     if S.driver.call('erroneous', hexs(src))[1] == '1':
         return None
-    if prop in ('C01', 'C04', 'C02', 'C09', 'C06'):
+    if prop in ('C01', 'C04', 'C02', 'C09', 'C06', 'C08'):
         t_src = deep.tree_of(S, src)
-        for w in (info['width'], 0, 80, 40, 20, 1 << 20):
+        for w in (info['width'], 0, 80, 40, 20, 15, 10, 1 << 20):
             a = S.driver.call('format', hexs(src), w, info.get('tab', 2), info.get('reorder', 0))
             if a[0] != 'ok':
                 continue
@@ -506,6 +591,11 @@ def confirm(S, info, prop='C03'):
             if t_out is None:
                 return dict(api='Typstyle::format_content', source=src, width=w, tab=info.get('tab', 2), output=out,
                             what='well-formed %s is formatted to text with syntax errors (width %d): %s' % (show(src), w, show(out)))
+            if prop == 'C08' and t_src is not None:
+                d = prose_lines_broken(t_src, t_out)
+                if d:
+                    return dict(api='Typstyle::format_content', source=src, width=w, tab=info.get('tab', 2), output=out, difference=d,
+                                what='a line of %s that holds prose is broken when formatted (width %d) to %s: %s' % (show(src), w, show(out), d))
             if prop == 'C06' and t_src is not None and comment_list(t_src) != comment_list(t_out):
                 return dict(api='Typstyle::format_content', source=src, width=w, tab=info.get('tab', 2), output=out,
                             what='comments of %s change when formatted (width %d) to %s: %r -> %r' % (show(src), w, show(out), comment_list(t_src), comment_list(t_out)))
@@ -546,7 +636,7 @@ def site_of(src):
 def report(S, prop, found):
     groups = {}
     for lab, info in found:
-        if lab.startswith(prop + ':') or (prop in ('C01', 'C02', 'C09', 'C06') and lab.startswith('C04:')):
+        if lab.startswith(prop + ':') or (prop in ('C01', 'C02', 'C09', 'C06', 'C08') and lab.startswith('C04:')):
             groups.setdefault((lab, site_of(info.get('seed', ''))), []).append(info)
     for (lab, site), infos in sorted(groups.items()):
         hit = None
